@@ -10,6 +10,8 @@
 #include "frame_iterator.c"
 #include "vfslice.c"
 #include "trash.c"
+#define NO_UNIT_TESTS
+#include "device/props/components.c"
 
 #define MAXF 3
 #define MAXB (sizeof(struct VideoFrame) + 16)
@@ -21,6 +23,9 @@ static int too_new_at = -1, cmp_calls;
 int8_t
 clock_cmp(struct clock* c, uint64_t ts)
 {
+    /* the walk must call this once per frame, in order, with that frame's time stamp */
+    VASSERT(ts == (uint64_t)cmp_calls, "C05: the delay walk visited a position that is not the next frame header");
+    ++cmp_calls;
     /* frames before index too_new_at are old enough, that one and the following are too new */
     return (int)ts >= too_new_at && too_new_at >= 0 ? 1 : -1;
 }
@@ -32,10 +37,11 @@ main(void)
 {
     int nf = ND(uint8_t);
     VASSUME(nf >= 1 && nf <= MAXF);
-    size_t sz[MAXF], total = 0;
+    size_t sz[MAXF], imgb[MAXF], total = 0;
     for (int i = 0; i < MAXF; ++i) {
         size_t img = ND(uint8_t);
         VASSUME(img <= 16);
+        imgb[i] = img;
         sz[i] = 8 * ((sizeof(struct VideoFrame) + img + 7) / 8);
         if (i < nf) total += sz[i];
     }
@@ -48,6 +54,10 @@ main(void)
                 struct VideoFrame* f = (struct VideoFrame*)cur;
                 memset(f, 0, sizeof *f);
                 f->bytes_of_frame = sz[i];
+                /* a shape consistent with the image bytes (u8, img x 1 x 1 x 1), as the source writes it */
+                f->shape = (struct ImageShape){ .dims = { .channels = 1, .width = (uint32_t)imgb[i], .height = 1, .planes = 1 },
+                                                .strides = { .channels = 1, .width = 1, .height = (int64_t)imgb[i], .planes = (int64_t)imgb[i] },
+                                                .type = SampleType_u8 };
                 f->frame_id = (uint64_t)i;
                 f->timestamps.acq_thread = (uint64_t)i; /* used by the clock_cmp stub */
                 cur += sz[i];
@@ -72,11 +82,13 @@ main(void)
         struct vfslice v = { (const struct VideoFrame*)beg, (const struct VideoFrame*)end };
         too_new_at = ND(int8_t);
         VASSUME(too_new_at >= -1 && too_new_at <= nf);
+        cmp_calls = 0;
         struct vfslice rem = vfslice_split_at_delay_ms(&v, 5.0f);
         size_t want = 0;
         for (int i = 0; i < MAXF; ++i)
             if (i < nf && (too_new_at < 0 || i < too_new_at)) want += sz[i];
         VASSERT((const uint8_t*)rem.beg == beg + want && rem.end == v.end, "C05: split point is not a frame boundary / not the first too-new frame");
+        cmp_calls = 0;
         struct vfslice all = vfslice_split_at_delay_ms(&v, 0.0f);
         VASSERT(all.beg == v.end, "C05: zero delay does not consume the whole packet");
     }
